@@ -21,6 +21,10 @@ func (fc *FCtx) evalCall(e *ast.CallExpr, st *State) []Val {
 		}
 	}
 	name := fc.calleeName(e)
+	if fo := fc.calleeObj(e); fo != nil && strings.HasPrefix(fo.Name(), "emitEvent") && fo.Pkg() != nil && strings.HasPrefix(fo.Pkg().Path(), modPath) {
+		fc.drop("event helper " + fo.Name())
+		return nil
+	}
 	if isDroppedCall(name) {
 		fc.drop(name)
 		return nil
